@@ -190,6 +190,12 @@ func codecPairs(encName string, versions []kmip.ProtocolVersion) func() {
 				RequestPayload: &payloads.RekeyRequestPayload{UniqueIdentifier: "x", Offset: &neg}}}},
 			&kmip.RequestMessage{Header: kmip.RequestHeader{ProtocolVersion: kmip.V1_4, BatchCount: 1}, BatchItem: []kmip.RequestBatchItem{{Operation: kmip.OperationAddAttribute,
 				RequestPayload: &payloads.AddAttributeRequestPayload{UniqueIdentifier: "x", Attribute: kmip.Attribute{AttributeName: "x-bad", AttributeValue: make(chan int)}}}}},
+			// failures before anything has been written: at the very first item, and after one / two structure openings but before any leaf
+			ttlv.Value{Tag: kmip.TagLeaseTime, Value: neg},
+			ttlv.Value{Tag: kmip.TagResponsePayload, Value: ttlv.Struct{{Tag: kmip.TagLeaseTime, Value: neg}, {Tag: kmip.TagUniqueIdentifier, Value: "x"}}},
+			ttlv.Value{Tag: kmip.TagBatchItem, Value: ttlv.Struct{{Tag: kmip.TagResponsePayload, Value: ttlv.Struct{{Tag: kmip.TagLeaseTime, Value: neg}}}}},
+			// ... and right after the first leaf
+			ttlv.Value{Tag: kmip.TagResponsePayload, Value: ttlv.Struct{{Tag: kmip.TagUniqueIdentifier, Value: "x"}, {Tag: kmip.TagLeaseTime, Value: neg}}},
 		}
 		failed := 0
 		for pi, p := range poisons {
@@ -222,6 +228,23 @@ func codecPairs(encName string, versions []kmip.ProtocolVersion) func() {
 					mc.Failf("codec-result-depends-on-history: %s encoder reused after an encoding that failed half-way (poison %d, panicked=%v) and Clear: %s gives %s, a fresh encoder gives %s", e.name, pi, panicked, names[j], short(showDoc(got)), short(showDoc(refs[j])))
 					return
 				}
+			}
+		}
+		// an encoder cleared before its first use, and cleared twice
+		for j := range ms {
+			enc := e.newEnc()
+			enc.Clear()
+			enc.Any(ms[j])
+			if got := string(enc.Bytes()); got != refs[j] {
+				mc.Failf("codec-result-depends-on-history: %s encoder cleared before its first use: %s gives %s, a fresh encoder gives %s", e.name, names[j], short(showDoc(got)), short(showDoc(refs[j])))
+				return
+			}
+			enc.Clear()
+			enc.Clear()
+			enc.Any(ms[j])
+			if got := string(enc.Bytes()); got != refs[j] {
+				mc.Failf("codec-result-depends-on-history: %s encoder cleared twice: %s gives %s, a fresh encoder gives %s", e.name, names[j], short(showDoc(got)), short(showDoc(refs[j])))
+				return
 			}
 		}
 		mc.Note("pairs", fmt.Sprint(pairs))
